@@ -1485,3 +1485,414 @@ theorem foldl_add_sublist (regs acc : List Nat) :
 
 
 end Proofs.Listener
+
+namespace Proofs.Listener
+
+/-! ### variant for termination of stop() under fair schedules -/
+
+/-- work left for the handler threads of the server `t` (false = HTTP, true = HTTPS) -/
+def workOn (c : Cfg) (t : Bool) : List Sender → Nat
+  | [] => 0
+  | sd :: l => (if sd.tls = t then hWork c sd.pc else 0) + workOn c t l
+
+theorem workOn_set (c : Cfg) (t : Bool) (l : List Sender) (j : Nat) (sd sd' : Sender) (hj : l[j]? = some sd) :
+    workOn c t (l.set j sd') + (if sd.tls = t then hWork c sd.pc else 0) =
+    workOn c t l + (if sd'.tls = t then hWork c sd'.pc else 0) := by
+  induction l generalizing j with
+  | nil => simp at hj
+  | cons a l ih =>
+    cases j with
+    | zero => simp at hj; subst hj; simp [workOn]; omega
+    | succ j => simp at hj; have := ih j hj; simp [workOn]; omega
+
+/-- what the threads other than main still have to do before main's next step is enabled -/
+def help (c : Cfg) (s : Sys) : Nat :=
+  match s.main with
+  | .tClose => workOn c false s.senders
+  | .tClose2 => workOn c true s.senders
+  | .tPoll => if s.queue = [] then 0 else s.queue.length * W c + cbRem c s
+  | .tJoin => s.queue.length * W c + cbRem c s
+  | _ => 0
+
+def stopping (s : Sys) : Prop :=
+  s.main = .tShutdown ∨ s.main = .tClose ∨ s.main = .tShutdown2 ∨ s.main = .tClose2 ∨
+  s.main = .tPoll ∨ s.main = .tSetEv ∨ s.main = .tJoin
+
+/-- lexicographic: main's rank first, then the help still needed -/
+def varLE (c : Cfg) (s' s : Sys) : Prop :=
+  mainRank s' < mainRank s ∨ (mainRank s' = mainRank s ∧ help c s' ≤ help c s)
+def varLT (c : Cfg) (s' s : Sys) : Prop :=
+  mainRank s' < mainRank s ∨ (mainRank s' = mainRank s ∧ help c s' < help c s)
+
+theorem cb_keeps_main {c : Cfg} {s s' : Sys} (hs : stepCb c s = some s') :
+    s'.main = s.main ∧ s'.up = s.up ∧ s'.stopEv = s.stopEv := by
+  unfold stepCb at hs
+  split at hs
+  · simp at hs
+  · injection hs with hs; subst hs; unfold loopTop; split
+    · split <;> simp
+    · simp
+  · split at hs
+    · injection hs with hs; subst hs; simp
+    · injection hs with hs; subst hs; unfold nextDeliver afterCallbacks; split
+      · simp
+      · split
+        · split <;> simp
+        · simp
+  · injection hs with hs; subst hs; simp
+  · injection hs with hs; subst hs; unfold nextDeliver afterCallbacks; split
+    · simp
+    · split
+      · split <;> simp
+      · simp
+  · injection hs with hs; subst hs; unfold loopTop; split
+    · split <;> simp
+    · simp
+  · split at hs <;> injection hs with hs <;> subst hs
+    · simp
+    · unfold loopTop; split
+      · split <;> simp
+      · simp
+  · simp at hs
+
+
+theorem accept_workOn (c : Cfg) (s : Sys) (j : Nat) (sd : Sender) (hj : s.senders[j]? = some sd) (hpc : sd.pc = .idle)
+    (tl t : Bool) :
+    (acceptReq s j sd tl).main = s.main ∧ (acceptReq s j sd tl).up = s.up ∧
+    (acceptReq s j sd tl).queue = s.queue ∧ (acceptReq s j sd tl).cb = s.cb ∧ (acceptReq s j sd tl).stopEv = s.stopEv ∧
+    (t ≠ tl → workOn c t (acceptReq s j sd tl).senders = workOn c t s.senders) := by
+  unfold acceptReq
+  split
+  · refine ⟨rfl, rfl, rfl, rfl, rfl, ?_⟩
+    intro ht
+    have := workOn_set c t s.senders j sd { sd with pc := .put, tls := tl } hj
+    have h2 : ¬ (tl = t) := fun e => ht e.symm
+    simp [hpc, hWork, h2] at this; simpa using this
+  · refine ⟨rfl, rfl, rfl, rfl, rfl, ?_⟩
+    intro ht
+    have := workOn_set c t s.senders j sd { sd with pc := .respIgn, tls := tl } hj
+    have h2 : ¬ (tl = t) := fun e => ht e.symm
+    simp [hpc, hWork, h2] at this; simpa using this
+
+/-- a step of a busy handler thread: less work for its own server, the same for the other one -/
+theorem busy_workOn (c : Cfg) (s s' : Sys) (j : Nat) (sd : Sender) (hj : s.senders[j]? = some sd) (hb : sd.pc ≠ .idle)
+    (hs : stepSndAt c s j sd = some s') (t : Bool) :
+    s'.main = s.main ∧ s'.up = s.up ∧
+    (sd.tls = t → workOn c t s'.senders < workOn c t s.senders) ∧
+    (sd.tls ≠ t → workOn c t s'.senders = workOn c t s.senders) := by
+  have hW : W c = 2 * c.ncb + 3 := rfl
+  have key := fun sd' => workOn_set c t s.senders j sd sd' hj
+  unfold stepSndAt at hs
+  split at hs <;> rename_i hpc
+  · exact absurd hpc hb
+  · split at hs <;> injection hs with hs <;> subst hs
+    · have := key { sd with pc := .respErr }
+      refine ⟨rfl, rfl, ?_, ?_⟩ <;> intro ht <;> simp [hWork, hpc, ht, setPc] at this ⊢ <;> omega
+    · have := key { sd with pc := .respOk }
+      refine ⟨rfl, rfl, ?_, ?_⟩ <;> intro ht <;> simp [hWork, hpc, ht, setPc] at this ⊢ <;> omega
+  all_goals
+    injection hs with hs; subst hs
+    have := key { next := sd.next + 1, pc := .idle, tls := sd.tls }
+    refine ⟨rfl, rfl, ?_, ?_⟩ <;> intro ht <;> simp [hWork, hpc, ht, finishReq] at this ⊢ <;> omega
+
+
+/-- every step of the main thread inside stop() lowers its rank, except polling a non-empty queue -/
+theorem main_step_rank {c : Cfg} (hc : c.proto = .fixed) {s s' : Sys} (I : Inv c s) (hst : stopping s)
+    (hs : stepMain c s = some s') : mainRank s' < mainRank s ∨ (s.main = .tPoll ∧ s.queue ≠ [] ∧ s' = s) := by
+  have m := I.ctl.mainOK
+  unfold stopping at hst
+  unfold stepMain at hs
+  split at hs <;> rename_i hm <;> simp [hm] at hst <;> simp [MainOK, hm] at m
+  · -- tShutdown
+    injection hs with hs; subst hs; left; simp [mainRank, hm]
+  · -- tClose
+    split at hs
+    · injection hs with hs; subst hs; left
+      have := rank_stopHttps c { s with srv := false } m.1
+      simp [mainRank, hm] at this ⊢; omega
+    · simp at hs
+  · injection hs with hs; subst hs; left; simp [mainRank, hm]
+  · split at hs
+    · injection hs with hs; subst hs; left
+      have := rank_afterServers c { s with srv2 := false } m.1
+      simp [mainRank, hm] at this ⊢; omega
+    · simp at hs
+  · -- tPoll
+    injection hs with hs; subst hs
+    cases hq : s.queue with
+    | nil =>
+      left
+      have hps : pollStep c s = afterQ c s := by simp [pollStep, hq, hc]
+      have := rank_afterQ c s m.1
+      rw [hps]; simp [mainRank, hm] at this ⊢; omega
+    | cons x q => right; exact ⟨hm, by simp, by simp [pollStep, hq]⟩
+  · injection hs with hs; subst hs; left; simp [mainRank, hm]
+  · -- tJoin
+    split at hs
+    · rename_i exc hcb
+      injection hs with hs; subst hs; left
+      have : exc = false := by
+        cases exc
+        · rfl
+        · exact absurd hcb I.ctl.noExc
+      subst this
+      simp [joinStep, hc, mainRank, hm, m.1]
+    · simp at hs
+
+theorem cb_step_help {c : Cfg} (hc : c.proto = .fixed) {s s' : Sys} (I : Inv c s) (hs : stepCb c s = some s')
+    (hwork : s.queue ≠ [] ∨ s.stopEv = true) :
+    s'.queue.length * W c + cbRem c s' < s.queue.length * W c + cbRem c s := by
+  have hoff : s.cb ≠ .off := by intro h; simp [stepCb, h] at hs
+  have hdone : ∀ e, s.cb ≠ .done e := by intro e h; simp [stepCb, h] at hs
+  obtain ⟨s1, h1, h2⟩ := progress_cb hc I.data.kOk hoff hdone hwork
+  rw [hs] at h1; injection h1 with h1; subst h1
+  obtain ⟨k1, k2, _⟩ := cb_keeps_main hs
+  have k3 := (sameHist_cb hs).1
+  simp only [measure, mainRank, k1, k2, k3] at h2
+  omega
+
+
+theorem busy_on_tls (t : Bool) (l : List Sender) (h : idleOn t l = false) :
+    ∃ (j : Nat) (sd : Sender), l[j]? = some sd ∧ sd.pc ≠ HPc.idle ∧ sd.tls = t := by
+  induction l with
+  | nil => simp [idleOn] at h
+  | cons a l ih =>
+    by_cases ha : a.pc = HPc.idle ∨ a.tls ≠ t
+    · have : idleOn t l = false := by
+        rcases ha with ha | ha <;> simpa [idleOn, ha] using h
+      obtain ⟨j, sd, hj, hp, ht⟩ := ih this
+      exact ⟨j + 1, sd, by simp [hj], hp, ht⟩
+    · refine ⟨0, a, by simp, ?_, ?_⟩
+      · intro h0; exact ha (Or.inl h0)
+      · apply Classical.byContradiction; intro h0; exact ha (Or.inr h0)
+
+/-- **(fairness 1)** while stop() is in progress, some thread has an enabled step that lowers the variant:
+    the main thread itself, or a busy handler thread of the server being closed, or the callback thread -/
+theorem fair_helpful {c : Cfg} (hc : c.proto = .fixed) {s : Sys} (I : Inv c s) (hst : stopping s) :
+    ∃ l s', step c l s = some s' ∧ varLT c s' s := by
+  have m := I.ctl.mainOK
+  by_cases hclose : s.main = .tClose ∧ idleOn false s.senders = false
+  · obtain ⟨j, sd, hj, hb, ht⟩ := busy_on_tls false _ hclose.2
+    obtain ⟨s', h1, _⟩ := progress_snd (c := c) hj hb
+    have h1' : stepSndAt c s j sd = some s' := by simpa [stepSnd, hj] using h1
+    obtain ⟨k1, k2, k3, _⟩ := busy_workOn c s s' j sd hj hb h1' false
+    refine ⟨.snd j, s', h1, Or.inr ⟨by simp [mainRank, k1, k2], ?_⟩⟩
+    simpa [help, k1, hclose.1] using k3 ht
+  · by_cases hclose2 : s.main = .tClose2 ∧ idleOn true s.senders = false
+    · obtain ⟨j, sd, hj, hb, ht⟩ := busy_on_tls true _ hclose2.2
+      obtain ⟨s', h1, _⟩ := progress_snd (c := c) hj hb
+      have h1' : stepSndAt c s j sd = some s' := by simpa [stepSnd, hj] using h1
+      obtain ⟨k1, k2, k3, _⟩ := busy_workOn c s s' j sd hj hb h1' true
+      refine ⟨.snd j, s', h1, Or.inr ⟨by simp [mainRank, k1, k2], ?_⟩⟩
+      simpa [help, k1, hclose2.1] using k3 ht
+    · by_cases hpoll : s.main = .tPoll ∧ s.queue ≠ []
+      · simp [MainOK, hpoll.1] at m
+        have hev : s.stopEv = false := by
+          cases he : s.stopEv
+          · rfl
+          · rcases I.ctl.evOff he with h | h
+            · simp [m.2.2.2.2] at h
+            · simp [hpoll.1] at h
+        obtain ⟨s', h1, _⟩ := progress_cb hc I.data.kOk (I.ctl.thrAlive m.2.2.2.2)
+          (I.ctl.noDone m.2.2.2.2 hev) (Or.inl hpoll.2)
+        have h3 := cb_step_help hc I h1 (Or.inl hpoll.2)
+        obtain ⟨k1, k2, _⟩ := cb_keeps_main h1
+        refine ⟨.cb false, s', h1, Or.inr ⟨by simp [mainRank, k1, k2], ?_⟩⟩
+        simp only [help, k1, hpoll.1, hpoll.2, if_false]
+        split <;> omega
+      · by_cases hjoin : s.main = .tJoin ∧ ∀ e, s.cb ≠ .done e
+        · simp [MainOK, hjoin.1] at m
+          obtain ⟨s', h1, _⟩ := progress_cb hc I.data.kOk (I.ctl.thrAlive m.2.2.2.2.1) hjoin.2
+            (Or.inr m.2.2.2.2.2.2)
+          have h3 := cb_step_help hc I h1 (Or.inr m.2.2.2.2.2.2)
+          obtain ⟨k1, k2, _⟩ := cb_keeps_main h1
+          refine ⟨.cb false, s', h1, Or.inr ⟨by simp [mainRank, k1, k2], ?_⟩⟩
+          simpa [help, k1, hjoin.1] using h3
+        · have hidle : s.main ≠ .idle := by
+            unfold stopping at hst; intro h0; simp [h0] at hst
+          obtain ⟨s', h1, _⟩ := progress_main hc I hidle
+            (fun h => by
+              cases ha : idleOn false s.senders
+              · exact absurd ⟨h, ha⟩ hclose
+              · rfl)
+            (fun h => by
+              cases ha : idleOn true s.senders
+              · exact absurd ⟨h, ha⟩ hclose2
+              · rfl)
+            (fun h => by
+              cases hq : s.queue with
+              | nil => rfl
+              | cons x q => exact absurd ⟨h, by simp [hq]⟩ hpoll)
+            (fun h => by
+              apply Classical.byContradiction
+              intro hne
+              exact hjoin ⟨h, fun e he => hne ⟨e, he⟩⟩)
+          rcases main_step_rank hc I hst h1 with h2 | ⟨h2, h3, _⟩
+          · exact ⟨.main, s', h1, Or.inl h2⟩
+          · exact absurd ⟨h2, h3⟩ hpoll
+
+
+theorem help_of_main_up {s s' : Sys} (h1 : s'.main = s.main) (h2 : s'.up = s.up) : mainRank s' = mainRank s := by
+  simp [mainRank, h1, h2]
+
+/-- a sender step while stop() is in progress never raises the variant -/
+theorem fair_snd_le {c : Cfg} {s s' : Sys} (I : Inv c s) (hst : stopping s) {j : Nat} {sd : Sender}
+    (hj : s.senders[j]? = some sd) (hs : stepSndAt c s j sd = some s') : varLE c s' s := by
+  have m := I.ctl.mainOK
+  by_cases hb : sd.pc = .idle
+  · -- a new request over the HTTP port
+    have hacc : s.accepting = true := by
+      cases ha : s.accepting
+      · simp [stepSndAt, hb, ha] at hs
+      · rfl
+    have hsrv := I.ctl.acc_srv hacc
+    simp [stepSndAt, hb, hacc] at hs; subst hs
+    obtain ⟨k1, k2, k3, k4, k5, k6⟩ := accept_workOn c s j sd hj hb false true
+    refine Or.inr ⟨help_of_main_up k1 k2, ?_⟩
+    unfold stopping at hst
+    rcases hst with h | h | h | h | h | h | h <;> simp [MainOK, h] at m <;> simp_all [help]
+  · obtain ⟨k1, k2, k3, k4⟩ := busy_workOn c s s' j sd hj hb hs false
+    obtain ⟨_, _, k5, k6⟩ := busy_workOn c s s' j sd hj hb hs true
+    refine Or.inr ⟨help_of_main_up k1 k2, ?_⟩
+    have hle : ∀ t, workOn c t s'.senders ≤ workOn c t s.senders := by
+      intro t
+      cases t
+      · by_cases ht : sd.tls = false
+        · exact Nat.le_of_lt (k3 ht)
+        · exact Nat.le_of_eq (k4 ht)
+      · by_cases ht : sd.tls = true
+        · exact Nat.le_of_lt (k5 ht)
+        · exact Nat.le_of_eq (k6 ht)
+    -- at tPoll/tJoin no handler is busy at all
+    have hidleAll : s.srv = false → s.srv2 = false → False := by
+      intro h1 h2
+      have := allIdle_get (allIdle_of_idleOn (I.ctl.nosrv_idle h1) (I.ctl.nosrv2_idle h2)) hj
+      exact hb this
+    unfold stopping at hst
+    rcases hst with h | h | h | h | h | h | h <;> simp [MainOK, h] at m
+    · simp [help, k1, h]
+    · simpa [help, k1, h] using hle false
+    · simp [help, k1, h]
+    · simpa [help, k1, h] using hle true
+    · exact absurd (hidleAll m.2.1 m.2.2.1) id
+    · simp [help, k1, h]
+    · exact absurd (hidleAll m.2.1 m.2.2.1) id
+
+
+/-- **(fairness 2)** while stop() is in progress, no step of any thread raises the variant -/
+theorem fair_never_increases {c : Cfg} (hc : c.proto = .fixed) {s s' : Sys} (I : Inv c s) (hst : stopping s)
+    (l : Label) (hs : step c l s = some s') : varLE c s' s := by
+  have m := I.ctl.mainOK
+  have hnotidle : s.main ≠ .idle := by unfold stopping at hst; intro h0; simp [h0] at hst
+  cases l with
+  | start => simp [step, stepStart, hnotidle] at hs
+  | stop => simp [step, stepStop, hnotidle] at hs
+  | failStart =>
+    unfold stopping at hst
+    simp only [step, stepFail] at hs
+    split at hs
+    · rename_i h0; rcases h0 with h0 | h0 <;> simp [h0] at hst
+    · simp at hs
+  | main =>
+    rcases main_step_rank hc I hst hs with h | ⟨_, _, h⟩
+    · exact Or.inl h
+    · subst h; exact Or.inr ⟨rfl, Nat.le_refl _⟩
+  | snd j =>
+    simp only [step, stepSnd] at hs
+    split at hs
+    · simp at hs
+    · rename_i sd hj; exact fair_snd_le I hst hj hs
+  | sndTls j =>
+    simp only [step, stepSndTls] at hs
+    split at hs
+    · simp at hs
+    · rename_i sd hj
+      split at hs
+      · rename_i hg
+        injection hs with hs; subst hs
+        have hsrv2 := I.ctl.acc_srv2 hg.2
+        obtain ⟨k1, k2, k3, k4, k5, k6⟩ := accept_workOn c s j sd hj hg.1 true false
+        refine Or.inr ⟨help_of_main_up k1 k2, ?_⟩
+        unfold stopping at hst
+        rcases hst with h | h | h | h | h | h | h <;> simp [MainOK, h] at m <;> simp_all [help]
+      · simp at hs
+  | cb r =>
+    have hs' : stepCb c s = some s' := hs
+    obtain ⟨k1, k2, k3⟩ := cb_keeps_main hs'
+    have k4 := (sameHist_cb hs').1
+    have k5 := (sameHist_cb hs').2.2.2.2.2.1
+    refine Or.inr ⟨help_of_main_up k1 k2, ?_⟩
+    unfold stopping at hst
+    rcases hst with h | h | h | h | h | h | h <;> simp [MainOK, h] at m
+    · simp [help, k1, h]
+    · simp [help, k1, h, k4]
+    · simp [help, k1, h]
+    · simp [help, k1, h, k4]
+    · -- tPoll
+      simp only [help, k1, h]
+      by_cases hq : s.queue = []
+      · have : s'.queue = [] := by
+          have := k5; rw [hq] at this; simpa using this
+        simp [hq, this]
+      · have := cb_step_help hc I hs' (Or.inl hq)
+        simp only [hq, if_false]
+        split <;> omega
+    · simp [help, k1, h]
+    · -- tJoin
+      have := cb_step_help hc I hs' (Or.inr m.2.2.2.2.2.2)
+      simp only [help, k1, h]; omega
+
+
+theorem hWork_pos (c : Cfg) {pc : HPc} (h : pc ≠ .idle) : 0 < hWork c pc := by
+  cases pc <;> simp [hWork, W] at h ⊢
+
+theorem idleOn_of_workOn_zero (c : Cfg) (t : Bool) (l : List Sender) (h : workOn c t l = 0) : idleOn t l = true := by
+  induction l with
+  | nil => simp [idleOn]
+  | cons a l ih =>
+    simp only [workOn] at h
+    have h1 : (if a.tls = t then hWork c a.pc else 0) = 0 := by omega
+    have h2 : workOn c t l = 0 := by omega
+    have ih' := ih h2
+    simp only [idleOn, List.all_cons, Bool.and_eq_true] at ih' ⊢
+    refine ⟨?_, ih'⟩
+    by_cases ht : a.tls = t
+    · simp [ht] at h1
+      by_cases hp : a.pc = .idle
+      · simp [hp]
+      · have := hWork_pos c hp; omega
+    · simp [ht]
+
+/-- **(fairness 3)** while stop() is in progress: when no help is needed any more, the main thread's own step
+    is enabled and lowers its rank (and by `fair_never_increases` no other thread can take that away again) -/
+theorem fair_main_enabled {c : Cfg} (hc : c.proto = .fixed) {s : Sys} (I : Inv c s) (hst : stopping s)
+    (h0 : help c s = 0) : ∃ s', stepMain c s = some s' ∧ mainRank s' < mainRank s := by
+  have m := I.ctl.mainOK
+  have hidle : s.main ≠ .idle := by unfold stopping at hst; intro h1; simp [h1] at hst
+  obtain ⟨s', h1, _⟩ := progress_main hc I hidle
+    (fun h => by simp only [help, h] at h0; exact idleOn_of_workOn_zero c false _ h0)
+    (fun h => by simp only [help, h] at h0; exact idleOn_of_workOn_zero c true _ h0)
+    (fun h => by
+      simp only [help, h] at h0
+      cases hq : s.queue with
+      | nil => rfl
+      | cons x q => simp [hq, W] at h0)
+    (fun h => by
+      simp only [help, h] at h0
+      simp [MainOK, h] at m
+      have hrem : cbRem c s = 0 := by omega
+      have hal := I.ctl.thrAlive m.2.2.2.2.1
+      cases hcb : s.cb <;> simp [cbRem, hcb] at hrem hal ⊢
+      · split at hrem <;> omega)
+  rcases main_step_rank hc I hst h1 with h2 | ⟨h2, h3, _⟩
+  · exact ⟨s', h1, h2⟩
+  · simp only [help, h2] at h0
+    simp [h3, W] at h0
+    have : s.queue.length = 0 := by
+      rcases Nat.mul_eq_zero.mp h0.1 with h | h
+      · exact h
+      · omega
+    exact absurd (List.length_eq_zero_iff.mp this) h3
+
+
+end Proofs.Listener
